@@ -45,6 +45,9 @@ def same(a, b):
     a2, b2 = Chem.MolFromSmiles(ca), Chem.MolFromSmiles(cb)
     if a2 is None or b2 is None:
         return False
+    # a bond of unspecified type matches every bond in a substructure search: bond types must agree as multisets before the match means identity
+    if sorted(str(x.GetBondType()) for x in a2.GetBonds()) != sorted(str(x.GetBondType()) for x in b2.GetBonds()):
+        return False
     return a2.HasSubstructMatch(b2, useChirality=True) and b2.HasSubstructMatch(a2, useChirality=True)
 
 
